@@ -94,10 +94,14 @@ def gen_case(r: Any, idx: int) -> dict:
         P["span"] = span
         P["shift"] = r.choice([None, None, span, 5, 10, 2.5, span / 2, span * 2, span + 5, 15])
         P["td"] = r.random() < 0.5
+        # who gets the scheduler: subscribe() only / the operator as well / the operator gets the lab's and subscribe() another,
+        # working scheduler with a frozen clock (the operator must use the one it was given)
+        P["sched"] = r.choice(["sub", "sub", "arg", "both"])
     elif fam == "toc":
         P["span"] = r.choice([5, 10, 10, 15, 7, 20])
         P["count"] = r.choice([1, 2, 2, 3, 4])
         P["td"] = r.random() < 0.5
+        P["sched"] = r.choice(["sub", "sub", "arg", "both"])
     elif fam == "boundary":
         P["btl"] = gen_timeline(r, "ints", maxlen=6, term=r.choice([None, None, None, None, "C", "E"]))
         P["bhot"] = r.random() < 0.4
@@ -160,13 +164,14 @@ def execute(case: dict, r: Any) -> Run:
         o = getattr(ops, op)(P["count"], P["skip"]) if P["skip"] is not None else getattr(ops, op)(P["count"])
     elif fam == "time":
         shift = P["shift"]
+        kw = {"scheduler": lab.ts} if P.get("sched") in ("arg", "both") else {}
         if shift is None:
-            o = getattr(ops, op)(tspan(P["span"], P["td"]))
+            o = getattr(ops, op)(tspan(P["span"], P["td"]), **kw)
         else:
-            o = getattr(ops, op)(tspan(P["span"], P["td"]), tspan(shift, P["td"]))
+            o = getattr(ops, op)(tspan(P["span"], P["td"]), tspan(shift, P["td"]), **kw)
         horizon = last + 2 * max(P["span"], shift or 0) + 0.137
     elif fam == "toc":
-        o = getattr(ops, op)(tspan(P["span"], P["td"]), P["count"])
+        o = getattr(ops, op)(tspan(P["span"], P["td"]), P["count"], **({"scheduler": lab.ts} if P.get("sched") in ("arg", "both") else {}))
         horizon = last + 2 * P["span"] + 0.137
     elif fam == "boundary":
         bm, _ = make_input(r, P["btl"], P["bhot"])
@@ -194,7 +199,11 @@ def execute(case: dict, r: Any) -> Run:
     else:
         raise KeyError(fam)
     top = lab.observer("top")
-    lab.at(T0, lambda: top.subscribe_to(src.pipe(o)))
+    if P.get("sched") == "both":
+        from ._c15_time import frozen_scheduler
+        lab.at(T0, lambda: top.subscribe_to(src.pipe(o), scheduler=frozen_scheduler(lab)))
+    else:
+        lab.at(T0, lambda: top.subscribe_to(src.pipe(o)))
 
     def budget(n: int) -> None:
         if n > ACTION_BUDGET:
